@@ -187,6 +187,8 @@ def same_obj(a, b):
         return set(a) == set(b) and all(same_obj(a[k], b[k]) for k in a)
     if isinstance(a, str) and isinstance(b, str):
         return a == b
+    if type(a) is int and type(b) is int:
+        return a == b
     return False
 
 
@@ -301,12 +303,16 @@ def judge(ctx, sig, args, kwargs, preset, call, tag):
 
 
 def all_shapes(ctx, pool, max_args):
-    """Every call shape (number of positionals x keyword subset) with fresh symbolic values."""
+    """Every call shape (number of positionals x keyword subset) with fresh symbolic values; the keyword subsets a
+    second time with the values None / 0 / '' (a caller's falsy value is still the caller's value)."""
     for nargs in range(max_args + 1):
         for mask in range(1 << len(pool)):
             args = tuple(ctx.sym_int(f"a{i}@{nargs}.{mask}") for i in range(nargs))
             kwargs = {name: ctx.sym_int(f"k.{name}@{nargs}.{mask}") for b, name in enumerate(pool) if mask >> b & 1}
             yield args, kwargs
+            if mask:
+                falsy = [None, 0, ""]
+                yield args, {name: falsy[b % 3] for b, name in enumerate(pool) if mask >> b & 1}
 
 
 def run_l1(ctx, params):
